@@ -39,7 +39,7 @@ def check_c14(tier, replay):
         if n < 300:
             raise MachineryError("TLC enumerated only %d programs" % n)
         env = dict(VERIF_IN=ind, VERIF_OUT=outd, GORACE="halt_on_error=0")
-        rc, out = vlib.go_test("./racedrv", "TestRacePrograms$", env, timeout=3000, race=True)
+        rc, out = vlib.go_test("./racedrv", "TestRacePrograms$", env, timeout=3000, race=True, logpath=os.environ.get("VERIF_C14_LOG"))
         races = re.findall(r"WARNING: DATA RACE.*?(?:==================)", out, re.S)
         kcp_races = [x for x in races if "github.com/xtaci/kcp-go/v5" in x]
         if kcp_races:
